@@ -26,8 +26,11 @@ static int g_failed = 0;
 
 // fresh heap memory is filled with a fixed pattern in both native builds, so that the
 // self-test comparison does not depend on allocator history
-void *operator new(size_t n) { void *p = malloc(n ? n : 1); if (!p) abort(); memset(p, 0xAA, n); return p; }
-void *operator new[](size_t n) { void *p = malloc(n ? n : 1); if (!p) abort(); memset(p, 0xAA, n); return p; }
+// (a different byte per allocation, so that two objects built from the same input do not share their garbage:
+//  "image contains uninitialised memory" then reproduces natively as two different images)
+static unsigned g_allocs = 0;
+void *operator new(size_t n) { void *p = malloc(n ? n : 1); if (!p) abort(); memset(p, 0xA0 + (g_allocs++ % 64), n); return p; }
+void *operator new[](size_t n) { void *p = malloc(n ? n : 1); if (!p) abort(); memset(p, 0xA0 + (g_allocs++ % 64), n); return p; }
 void operator delete(void *p) noexcept { free(p); }
 void operator delete[](void *p) noexcept { free(p); }
 void operator delete(void *p, size_t) noexcept { free(p); }
